@@ -151,9 +151,61 @@ class PathExec:
         if name.endswith("Try::branch") or (c.name or "").endswith("Try::branch"):
             v = args[0]
             return ("branch", v[1]) if v[0] in ("opt", "res") else ("unknown", "branch")
+        lc = c.local_callee()
+        if lc is not None and lc.kind != "Closure":
+            v = self.inline(lc, args, st)
+            if v is not None:
+                return v
         if name.endswith("From::from") or name.endswith("Into::into") or (c.name or "").endswith(("From::from", "Into::into")):
             return args[0]
         return ("unknown", "call %s" % (c.tname or "<indirect>"))
+
+    def inline(self, lc, args, st, depth=0):
+        """value of a call of a small pure griddle helper (loop-free, no &mut arguments anywhere, integer result), evaluated symbolically"""
+        ctx = self.ctx
+        T = ctx.facts.types
+        if getattr(self, "_depth", 0) > 3 or lc.loops() or T[lc.locals[0]["ty"]].get("k") != "int":
+            return None
+        for cc in ctx.calls(lc):
+            if lc.is_cleanup(cc.loc.bb):
+                continue
+            for a in cc.args:
+                if a["k"] in ("copy", "move"):
+                    at = T[a["place"]["ty"]]
+                    if at.get("k") == "ref" and at.get("mut"):
+                        return None
+            if cc.unresolved:
+                return None
+        sub = PathExec(ctx, lc)
+        sub._depth = getattr(self, "_depth", 0) + 1
+        results = []
+        for rb in lc.return_blocks():
+            sub.paths = []
+            env = {i + 1: a for i, a in enumerate(args)}
+            sub._walk(0, env, {"left": st["left"], "ne": st["ne"], "cmps": [], "ver": st["ver"], "oz_ver": None}, (), rb, 16)
+            for p in sub.paths:
+                v = p["env"].get(0)
+                if v is not None:
+                    results.append((p["state"]["left"], v))
+        if sub.incomplete or not results:
+            return None
+        distinct = []
+        for lf, v in results:
+            if v not in [x[1] for x in distinct]:
+                distinct.append((lf, v))
+        if len(distinct) == 1:
+            return distinct[0][1]
+        # the "pending old elements or 0" shape: LEFT = Some -> o, LEFT = None -> 0
+        if len(distinct) == 2:
+            byleft = {lf: v for lf, v in distinct}
+            if byleft.get(N) == C(0) and byleft.get(S) is not None and byleft[S][0] == "var" and byleft[S][1].startswith("o"):
+                ver = "" if st["ver"] == 0 else "@%d" % st["ver"]
+                if st["left"] == S:
+                    return byleft[S]
+                if st["left"] == N:
+                    return C(0)
+                return V("oz" + ver)
+        return None
 
     def mutates_tables(self, c):
         ctx, b = self.ctx, self.body
@@ -193,11 +245,17 @@ class PathExec:
                 p = b.expand(pl, alias=True)
                 if is_self_left(self.ctx, b, b.expand(pl)):
                     rvv = s_["rv"]
-                    if rvv["k"] == "aggregate" and rvv.get("variant") == "None":
+                    from rules_typestate import _opt_value_state
+                    newv = None
+                    if rvv["k"] == "aggregate" and rvv.get("adt") == "core::option::Option":
+                        newv = N if rvv.get("variant") == "None" else S
+                    elif rvv["k"] == "use":
+                        newv = _opt_value_state(b, rvv["op"])
+                    if newv == N:
                         st["left"] = N
                         st["ne"] = True
                     else:
-                        st["left"] = None
+                        st["left"] = S if newv == S else None
                         st["ne"] = False
                     st["ver"] += 1
                 elif p.root in env and p.root != pl["local"]:
@@ -253,6 +311,8 @@ class PathExec:
                     if ee is False:
                         st2["ne"] = True
                         st2["nonempty"] = True
+                    elif ee == "NE":
+                        st2["ne"] = True      # not pending, or pending and non-empty
                     else:
                         st2["empty"] = True
                 if cond[0] == "cmp":
@@ -316,12 +376,31 @@ def rule_s_grow(ctx):
     for b, loc, c in replacer_sites(ctx):
         if self_s_prefix(ctx, b) is None:
             continue
-        allocs = [x for x in ctx.calls(b) if x.tname in (HBT + "with_capacity", HBT + "try_with_capacity") and not b.is_cleanup(x.loc.bb)]
+        allocs = [(x, x.args[0]) for x in ctx.calls(b) if x.tname in (HBT + "with_capacity", HBT + "try_with_capacity") and not b.is_cleanup(x.loc.bb)]
+        # allocation delegated to a small helper: the helper passes one of its own parameters straight to hashbrown
+        for x in ctx.calls(b):
+            lc = x.local_callee()
+            if lc is None or lc.kind == "Closure" or b.is_cleanup(x.loc.bb):
+                continue
+            inner = [y for y in ctx.calls(lc) if y.tname in (HBT + "with_capacity", HBT + "try_with_capacity") and not lc.is_cleanup(y.loc.bb)]
+            if not inner:
+                continue
+            idxs = set()
+            for y in inner:
+                q = y.arg_path(0)
+                if q is not None and 1 <= q.root <= lc.arg_count and not q.fields():
+                    idxs.add(q.root - 1)
+                else:
+                    idxs.add(None)
+            if len(idxs) == 1 and None not in idxs:
+                allocs.append((x, x.args[idxs.pop()]))
+            else:
+                R.viol("%s:alloc-helper" % b.path, x.where(), "the allocation helper %s does not pass a plain parameter to hashbrown (unproven)" % lc.path)
         if not allocs:
             R.viol("%s:no-alloc" % b.path, b.where(loc), "MAIN is replaced by a table not allocated in the same body (unproven)")
             continue
         usize_params = [l for l in range(2, b.arg_count + 1) if ctx.facts.types[b.locals[l]["ty"]]["s"] == "usize"]
-        for a in allocs:
+        for a, size_op in allocs:
             n += 1
             pe = PathExec(ctx, b)
             paths = pe.run(a.loc.bb)
@@ -333,7 +412,7 @@ def rule_s_grow(ctx):
             bad = None
             shown = None
             for p in paths:
-                arg = pe.op(p["env"], a.args[0])
+                arg = pe.op(p["env"], size_op)
                 shown = sx.show(arg)
                 u = sx.find_unknown(arg)
                 if u:
@@ -354,8 +433,8 @@ def rule_s_grow(ctx):
             if bad:
                 R.viol(key, a.where(), "growth in %s: %s. With a tighter table hashbrown's with_capacity can be exact (e.g. 28 of 32 buckets), so moving the "
                        "remaining elements would hit a full table" % (b.path, bad))
-    if n < 2:
-        R.anchor("alloc-sites", "expected 2 allocation sites in the replacer, found %d" % n)
+    if n < 1:
+        R.anchor("alloc-sites", "expected an allocation site in the replacer, found %d" % n)
     return R
 
 
@@ -495,10 +574,11 @@ def rule_s_reserve(ctx):
             R.inst(fn=b.path, site=c.where(), callee=lc.path, verdict="ok" if not bad else "VIOLATION")
             if bad:
                 R.viol("%s:grow-extra" % b.path, c.where(), "%s: %s" % (b.path, bad))
-    if n < 4:
-        R.anchor("in-place-sites", "expected 4 in-place reserve sites (2 functions x 2 profile arms), found %d" % n)
-    if g < 4:
-        R.anchor("growth-sites", "expected 4 growth calls in reserve/try_reserve, found %d" % g)
+    fns_inplace = {i["fn"] for i in R.instances if "amount" in i or i.get("verdict") == "VIOLATION"}
+    if n < 2 or len(fns_inplace) < 2:
+        R.anchor("in-place-sites", "expected an in-place reserve site in each of reserve and try_reserve, found %d in %d functions" % (n, len(fns_inplace)))
+    if g < 2:
+        R.anchor("growth-sites", "expected growth calls in reserve and try_reserve, found %d" % g)
     return R
 
 
@@ -529,8 +609,8 @@ def rule_s_ctor(ctx):
             R.inst(fn=b.path, site=c.where(), callee=c.tname, verdict="ok" if not bad else "VIOLATION")
             if bad:
                 R.viol("%s:%s" % (b.path, c.tname), c.where(), "%s %s" % (b.path, bad))
-    if n < 4:
-        R.anchor("ctor-sites", "expected >= 4 with_capacity hops, found %d" % n)
+    if n < 3:
+        R.anchor("ctor-sites", "expected >= 3 with_capacity hops, found %d" % n)
     return R
 
 
